@@ -1,31 +1,21 @@
 (* C12, fast solver over the reals: RecursiveSteps.  On a feed-forward network the recursion from the
    outputs never meets a node that is being activated (that would be a cycle), every node it returns from
    holds its final value, and the fuel (number of neurons + 1) is never exhausted. *)
-From NeatModel Require Import Res Net Fast SolverUtil SolverSpec SolverFast.
+From NeatModel Require Import Res Net Fast SolverUtil SolverSpec SolverFast FastAdj.
 From Coq Require Import Reals Lra Arith Lia.
 Open Scope R_scope.
 
-(* the weight table: the last matching connection *)
-Lemma fold_match_cases {A} (test : A -> bool) (w : A -> R) (w0 : R) (l : list A) : forall acc,
-  (forall c, In c l -> test c = true -> w c = w0) ->
-  fold_left (fun a c => if test c then w c else a) l acc = w0 \/
-  (fold_left (fun a c => if test c then w c else a) l acc = acc /\ forall c, In c l -> test c = false).
+(* a list of indices all of which have a preimage is the image of a list of positions *)
+Lemma map_preimage (idx : nat -> nat) (P : nat -> Prop) (A : list nat) :
+  (forall a, In a A -> exists q, P q /\ idx q = a) ->
+  exists qs, A = map idx qs /\ forall q, In q qs -> P q.
 Proof.
-  induction l as [|c rest IH]; intros acc H; simpl.
-  - right. split; [reflexivity|]. intros c [].
-  - destruct (test c) eqn:E.
-    + left. rewrite (H c (or_introl eq_refl) E).
-      destruct (IH w0 (fun c' Hc => H c' (or_intror Hc))) as [G|[G _]]; exact G.
-    + destruct (IH acc (fun c' Hc => H c' (or_intror Hc))) as [G|[G1 G2]]; [left; exact G|].
-      right. split; [exact G1|]. intros c' [<-|Hc]; [exact E|apply G2; exact Hc].
-Qed.
-
-Lemma fold_unique_match {A} (test : A -> bool) (w : A -> R) (l : list A) (c0 : A) (acc : R) :
-  In c0 l -> test c0 = true -> (forall c, In c l -> test c = true -> w c = w c0) ->
-  fold_left (fun a c => if test c then w c else a) l acc = w c0.
-Proof.
-  intros Hin Ht Hu. destruct (fold_match_cases test w (w c0) l acc Hu) as [G|[_ G]]; [exact G|].
-  rewrite (G c0 Hin) in Ht. discriminate.
+  induction A as [|a rest IH]; intros H.
+  - exists []. split; [reflexivity|]. intros q [].
+  - destruct (H a (or_introl eq_refl)) as (q & Pq & Eq).
+    destruct IH as (qs & E & HP); [intros a' Ha'; apply H; right; exact Ha'|].
+    exists (q :: qs). split; [simpl; rewrite Eq, E; reflexivity|].
+    intros q' [<-|Hq']; [exact Pq|apply HP; exact Hq'].
 Qed.
 
 Section FastRecursive.
@@ -40,9 +30,6 @@ Hypothesis FF : ffnet n known dp.
 Hypothesis SOL : solves n f v.
 Hypothesis TR : translated n fn idx.
 Hypothesis vbias : forall p, (p < nnodes n)%nat -> is_bias (role_at n p) = true -> v p = 1.
-(* at most one link between an ordered pair of nodes *)
-Hypothesis no_parallel : forall p, (p < nnodes n)%nat -> neuronb n p = true ->
-                                   NoDup (map (@l_src R) (nd_in (node_at n p))).
 
 Notation act := (ract known f).
 Notation fstate := (fstate R).
@@ -51,50 +38,72 @@ Notation N := (nnodes n).
 Definition dn (s : fstate) (i : nat) : bool := getB (fs_done s) i.
 Definition ia (s : fstate) (i : nat) : bool := getB (fs_inact s) i.
 
-(* reverseAdjacentList and adjacentMatrix of a translated network *)
-Lemma radj_translated p :
+(* reverseAdjacentList and adjacentMatrix of a translated network: the sources of the non-bias links into p, each
+   once (parallel links share one entry), and the sum of the weights of the links from one source *)
+Notation nbl p := (filter (nonbias_src n) (nd_in (node_at n p))).
+
+Lemma radj_positions p :
   (p < N)%nat -> neuronb n p = true ->
-  radj fn (idx p) = map (fun l => idx (l_src l)) (filter (nonbias_src n) (nd_in (node_at n p))).
+  exists qs, radj fn (idx p) = map idx qs /\ NoDup qs /\
+    (forall q, In q qs -> exists l, In l (nd_in (node_at n p)) /\ nonbias_src n l = true /\ l_src l = q) /\
+    (forall l, In l (nbl p) -> In (l_src l) qs).
 Proof.
-  intros Hp Hn. unfold radj. rewrite (tr_conns _ _ _ TR p Hp Hn), map_map. reflexivity.
+  intros Hp Hn.
+  destruct (map_preimage idx
+    (fun q => exists l, In l (nd_in (node_at n p)) /\ nonbias_src n l = true /\ l_src l = q) (radj fn (idx p)))
+    as (qs & E & HP).
+  { intros a Ha. apply radj_In in Ha. destruct Ha as (c & Hc & Ht & Hs).
+    assert (Hf : In c (filter (fun c => (fl_tgt c =? idx p)%nat) (f_conns fn))).
+    { apply filter_In. split; [exact Hc|]. apply Nat.eqb_eq. exact Ht. }
+    rewrite (tr_conns _ _ _ TR p Hp Hn) in Hf. apply in_map_iff in Hf. destruct Hf as (l & El & Hl).
+    apply filter_In in Hl. destruct Hl as [Hl Hnb].
+    exists (l_src l). split; [exists l; auto|]. rewrite <- Hs, <- El. reflexivity. }
+  exists qs. split; [exact E|]. split.
+  { apply (NoDup_map_inv idx). rewrite <- E. apply radj_NoDup. }
+  split; [exact HP|].
+  intros l Hl.
+  assert (Hin : In (idx (l_src l)) (radj fn (idx p))).
+  { apply radj_In. exists (mkFlink (idx (l_src l)) (idx p) (l_w l)). split; [|split; reflexivity].
+    assert (Hf : In (mkFlink (idx (l_src l)) (idx p) (l_w l))
+                    (filter (fun c => (fl_tgt c =? idx p)%nat) (f_conns fn))).
+    { rewrite (tr_conns _ _ _ TR p Hp Hn). apply (in_map (fun l0 : link R => mkFlink (idx (l_src l0)) (idx p) (l_w l0))).
+      exact Hl. }
+    apply filter_In in Hf. apply Hf. }
+  rewrite E in Hin. apply in_map_iff in Hin. destruct Hin as (q' & Eq' & Hq').
+  destruct (HP q' Hq') as (l' & Hl' & _ & Es').
+  apply filter_In in Hl. destruct Hl as [Hl _].
+  pose proof (net_ok_src n (ff_ok _ _ _ FF) p l Hp Hl) as Hs.
+  pose proof (net_ok_src n (ff_ok _ _ _ FF) p l' Hp Hl') as Hs'. rewrite Es' in Hs'.
+  apply (tr_idx_inj _ _ _ TR _ _ Hs' Hs) in Eq'. subst q'. exact Hq'.
 Qed.
 
-Lemma adj_w_filter a t :
-  adj_w Rnum fn a t =
-  fold_left (fun acc c => if (fl_src c =? a)%nat then fl_w c else acc)
-            (filter (fun c => (fl_tgt c =? t)%nat) (f_conns fn)) 0.
+Lemma adj_w_translated p q :
+  (p < N)%nat -> neuronb n p = true -> (q < N)%nat ->
+  adj_w Rnum fn (idx q) (idx p) = sumf (@l_w R) (filter (fun l => (l_src l =? q)%nat) (nbl p)).
 Proof.
-  unfold adj_w. simpl fzero. generalize 0. induction (f_conns fn) as [|c rest IH]; intros acc; simpl; [reflexivity|].
-  destruct (fl_tgt c =? t)%nat; simpl.
-  - rewrite andb_true_r. apply IH.
-  - rewrite andb_false_r. apply IH.
+  intros Hp Hn Hq. rewrite adj_w_sum, filter_filter_and, (tr_conns _ _ _ TR p Hp Hn).
+  assert (Hsrc : forall l, In l (nbl p) -> (l_src l < N)%nat).
+  { intros l Hl. apply filter_In in Hl. destruct Hl as [Hl _]. exact (net_ok_src n (ff_ok _ _ _ FF) p l Hp Hl). }
+  induction (nbl p) as [|l rest IH]; simpl; [reflexivity|].
+  assert (Hl : (l_src l < N)%nat) by (apply Hsrc; left; reflexivity).
+  assert (IH' := IH (fun l' Hl' => Hsrc l' (or_intror Hl'))).
+  destruct (l_src l =? q)%nat eqn:E.
+  - apply Nat.eqb_eq in E. rewrite E, Nat.eqb_refl. simpl. rewrite IH'. reflexivity.
+  - destruct (idx (l_src l) =? idx q)%nat eqn:E'; [|exact IH'].
+    apply Nat.eqb_eq in E'. apply (tr_idx_inj _ _ _ TR _ _ Hl Hq) in E'. apply Nat.eqb_neq in E. contradiction.
 Qed.
 
-Lemma adj_w_translated p l :
-  (p < N)%nat -> neuronb n p = true -> In l (nd_in (node_at n p)) -> nonbias_src n l = true ->
-  adj_w Rnum fn (idx (l_src l)) (idx p) = l_w l.
+(* the sum RecursiveSteps forms over the adjacency list is the sum over the links *)
+Lemma radj_sum p qs :
+  (p < N)%nat -> neuronb n p = true -> NoDup qs ->
+  (forall q, In q qs -> exists l, In l (nd_in (node_at n p)) /\ nonbias_src n l = true /\ l_src l = q) ->
+  (forall l, In l (nbl p) -> In (l_src l) qs) ->
+  sumf (fun q => adj_w Rnum fn (idx q) (idx p) * v q) qs = sumf (fun l => l_w l * v (l_src l)) (nbl p).
 Proof.
-  intros Hp Hn Hl Hnb. rewrite adj_w_filter, (tr_conns _ _ _ TR p Hp Hn).
-  set (mk := fun l0 : link R => mkFlink (idx (l_src l0)) (idx p) (l_w l0)).
-  change (l_w l) with (fl_w (mk l)).
-  apply fold_unique_match with (test := fun c => (fl_src c =? idx (l_src l))%nat).
-  - apply in_map. apply filter_In. auto.
-  - simpl. apply Nat.eqb_refl.
-  - intros c Hc Ht. apply in_map_iff in Hc. destruct Hc as (l' & <- & Hl'). simpl in *.
-    apply filter_In in Hl'. destruct Hl' as [Hl' _]. apply Nat.eqb_eq in Ht.
-    pose proof (net_ok_src n (ff_ok _ _ _ FF) p l Hp Hl) as Hs.
-    pose proof (net_ok_src n (ff_ok _ _ _ FF) p l' Hp Hl') as Hs'.
-    apply (tr_idx_inj _ _ _ TR _ _ Hs' Hs) in Ht.
-    (* same source, no parallel links: the same link *)
-    assert (l' = l); [|subst; reflexivity].
-    pose proof (no_parallel p Hp Hn) as ND. clear -ND Hl Hl' Ht.
-    induction (nd_in (node_at n p)) as [|x rest IH]; [destruct Hl|].
-    simpl in ND. inversion ND as [|? ? Hni ND']; subst.
-    destruct Hl as [->|Hl], Hl' as [->|Hl'].
-    + reflexivity.
-    + exfalso. apply Hni. rewrite <- Ht. apply in_map. exact Hl'.
-    + exfalso. apply Hni. rewrite Ht. apply in_map. exact Hl.
-    + apply IH; assumption.
+  intros Hp Hn ND H1 H2.
+  rewrite <- (sumf_regroup (@l_src R) (@l_w R) v qs (nbl p) ND H2).
+  apply sumf_ext. intros q Hq. destruct (H1 q Hq) as (l & Hl & _ & <-).
+  rewrite (adj_w_translated p (l_src l) Hp Hn (net_ok_src n (ff_ok _ _ _ FF) p l Hp Hl)). reflexivity.
 Qed.
 
 
@@ -140,22 +149,22 @@ Definition call_ok (call : fstate -> nat -> fstate * res bool) (bound : nat) : P
       (forall i, dn s' i = false -> bp s' i = bp s i).
 
 Lemma rec_loop_ok call b p (Hcall : call_ok call b) (Hp : (p < N)%nat) (Hn : neuronb n p = true)
-      (Hb : (dp p <= b)%nat) : forall ls s,
-  (forall l, In l ls -> In l (nd_in (node_at n p)) /\ nonbias_src n l = true) ->
+      (Hb : (dp p <= b)%nat) : forall qs s,
+  (forall q, In q qs -> exists l, In l (nd_in (node_at n p)) /\ nonbias_src n l = true /\ l_src l = q) ->
   RInv s -> dn s (idx p) = false -> ia s (idx p) = true ->
   (forall q', (q' < N)%nat -> ia s (idx q') = true -> (dp p <= dp q')%nat) ->
-  exists s', rec_loop Rnum fn call (idx p) (map (fun l => idx (l_src l)) ls) s = (s', Ok true) /\
+  exists s', rec_loop Rnum fn call (idx p) (map idx qs) s = (s', Ok true) /\
     RInv s' /\ dn s' (idx p) = false /\
     (forall i, dn s i = true -> dn s' i = true) /\
     (forall q', (q' < N)%nat -> dn s' (idx q') = true -> dn s (idx q') = true \/ (dp q' < dp p)%nat) /\
     (forall i, ia s' i = ia s i) /\
     (forall i, i <> idx p -> dn s' i = false -> bp s' i = bp s i) /\
-    bp s' (idx p) = bp s (idx p) + sumf (fun l => l_w l * v (l_src l)) ls.
+    bp s' (idx p) = bp s (idx p) + sumf (fun q => adj_w Rnum fn (idx q) (idx p) * v q) qs.
 Proof.
-  induction ls as [|l rest IH]; intros s Hls HR Hd Hi Hst.
+  induction qs as [|q0 rest IH]; intros s Hls HR Hd Hi Hst.
   - exists s. simpl. split; [reflexivity|]. split; [exact HR|]. split; [exact Hd|].
     split; [auto|]. split; [auto|]. split; [auto|]. split; [auto|]. lra.
-  - destruct (Hls l (or_introl eq_refl)) as [Hl Hnb].
+  - destruct (Hls q0 (or_introl eq_refl)) as (l & Hl & Hnb & Eq0). subst q0.
     pose proof (net_ok_src n (ff_ok _ _ _ FF) p l Hp Hl) as Hs.
     pose proof (ff_rank _ _ _ FF p l Hp Hn Hl) as Hrk.
     set (a := idx (l_src l)).
@@ -183,15 +192,14 @@ Proof.
     simpl map. simpl rec_loop. fold a. fold (ia s a). rewrite Hia. rewrite E1.
     set (s2 := set_bp s1 (idx p) (fadd Rnum (bpF Rnum s1 (idx p)) (fmul Rnum (sigF Rnum s1 a) (adj_w Rnum fn a (idx p))))).
     assert (Hsg : sg s1 a = v (l_src l)) by (apply R1; assumption).
-    assert (Hbp2 : bp s2 (idx p) = bp s1 (idx p) + l_w l * v (l_src l)).
+    assert (Hbp2 : bp s2 (idx p) = bp s1 (idx p) + adj_w Rnum fn a (idx p) * v (l_src l)).
     { unfold s2, bp, set_bp, bpF, sigF, getF. simpl.
       rewrite nth_upd_same by (destruct R1 as ((_ & L2 & _) & _); rewrite L2; apply (tr_idx_lt _ _ _ TR); exact Hp).
-      unfold a. rewrite (adj_w_translated p l Hp Hn Hl Hnb).
-      fold (sg s1 (idx (l_src l))). fold a. rewrite Hsg. lra. }
+      fold (sg s1 a). rewrite Hsg. lra. }
     assert (Ho2 : forall i, i <> idx p -> bp s2 i = bp s1 i).
     { intros i Hne. unfold s2, bp, set_bp. simpl. apply nth_upd_other. auto. }
     destruct (IH s2) as (s' & E' & R' & D' & M' & B' & I' & F' & S').
-    + intros l' Hl'. apply Hls. simpl. auto.
+    + intros q' Hq'. apply Hls. simpl. auto.
     + apply RInv_set_bp. exact R1.
     + exact Dp1.
     + change (ia s2 (idx p)) with (ia s1 (idx p)). rewrite I1. exact Hi.
@@ -207,7 +215,7 @@ Proof.
       { intros i Hne Hdi. rewrite (F' i Hne Hdi), (Ho2 i Hne). apply F1.
         destruct (dn s1 i) eqn:E; [|reflexivity].
         assert (G : dn s' i = true) by (apply M'; exact E). congruence. }
-      rewrite S', Hbp2, (F1 (idx p) Dp1). simpl. lra.
+      rewrite S', Hbp2, (F1 (idx p) Dp1). simpl. fold a. lra.
 Qed.
 
 
@@ -231,7 +239,7 @@ Proof.
   - (* a neuron that is not yet activated *)
     assert (Hn : neuronb n q = true).
     { destruct (sensor_or_neuron n q) as [Hs|Hn]; [|exact Hn]. rewrite (RS q Hq Hs) in Ed. discriminate. }
-    rewrite (radj_translated q Hq Hn).
+    destruct (radj_positions q Hq Hn) as (qs & Eqs & NDqs & Hqs1 & Hqs2). rewrite Eqs.
     set (cur := idx q) in *.
     set (s1 := set_bp (set_inact s cur true) cur (fzero Rnum)).
     assert (R1 : RInv s1).
@@ -245,10 +253,10 @@ Proof.
     assert (Hbo1 : forall i, i <> cur -> bp s1 i = bp s i).
     { intros i Hne. unfold bp, s1, set_bp. simpl. apply nth_upd_other. auto. }
     destruct (rec_loop_ok (rec_node Rnum act fn fuel) fuel q IH Hq Hn) with
-        (ls := filter (nonbias_src n) (nd_in (node_at n q))) (s := s1)
+        (qs := qs) (s := s1)
       as (s2 & E2 & R2 & D2 & M2 & B2 & I2 & F2 & S2).
     + lia.
-    + intros l Hl. apply filter_In in Hl. exact Hl.
+    + exact Hqs1.
     + exact R1.
     + exact Ed.
     + rewrite Hia1. fold cur. now rewrite Nat.eqb_refl.
@@ -256,7 +264,7 @@ Proof.
       destruct (cur =? idx q')%nat eqn:E.
       * apply Nat.eqb_eq in E. apply (tr_idx_inj _ _ _ TR _ _ Hq Hq') in E. subst q'. lia.
       * specialize (Hst q' Hq' Hq'i). lia.
-    + fold cur in E2.
+    + fold cur in E2. rewrite (radj_sum q qs Hq Hn NDqs Hqs1 Hqs2) in S2.
       match goal with |- context [rec_loop ?a ?b ?c ?d ?e ?st] =>
         replace (rec_loop a b c d e st) with (s2, @Ok bool true) by (symmetry; exact E2) end.
       cbv iota beta.
